@@ -248,6 +248,10 @@ def list_comprehension(eng, e, st):
             and isinstance(e.elt.args[0], ast.Name) and e.elt.args[0].id == first.target.id
             and [k.arg for k in e.elt.keywords] == ["key"]):
         return _sorted_rows_comprehension(eng, e, st)
+    if (len(e.generators) == 1 and not first.ifs and isinstance(first.target, ast.Name) and isinstance(e.elt, ast.Call)
+            and ast.unparse(e.elt.func) in ("collections.deque", "deque", "list") and len(e.elt.args) == 1
+            and not e.elt.keywords and isinstance(e.elt.args[0], ast.Name) and e.elt.args[0].id == first.target.id):
+        return _copied_rows_comprehension(eng, e, st)
     if not eng.simple_expr([first.iter]) and isinstance(first.iter, ast.Call) and st.pure is None:
         # python evaluates the outermost iterable once, before the loop: do the same (it may allocate, e.g. sorted())
         import copy as _copy
@@ -372,6 +376,45 @@ def _sorted_rows_comprehension(eng, e, st):
                 break
         if cur is not None:
             out.append((cur, Val(LIST(LIST(ety, region), region), R.t)))
+    return out
+
+
+def _copied_rows_comprehension(eng, e, st):
+    """[collections.deque(row) for row in rows] / [list(row) for row in rows]: one new outer list and a block of new
+    row lists (in the region allocations of the current function go to), row v an element-wise copy of rows[v]"""
+    from .engine import Frame
+    out = []
+    for s, rows in eng.ev(e.generators[0].iter, st):
+        if s.status != "run":
+            out.append((s, None))
+            continue
+        if rows.ty.kind != "list" or rows.ty.arg.kind != "list":
+            raise _oos("copying the rows of something that is not a list of lists")
+        region = eng.alloc_region
+        ety = rows.ty.arg.arg
+        hsrc = s.heap
+        n1 = hsrc.len(rows)
+        R = eng.new_list(s, LIST(LIST(ety, region), region))
+        s.heap = s.heap.set_len(R, 0)
+        h1 = s.heap
+        base = h1.alloc
+        h2 = eng.havoc(s, Frame(alloc_lists=(region == "c"), alloc_olists=(region == "o")), h1)
+        s.heap = h2
+        s.assume(h2.alloc == base + n1)
+        h2 = h2.set_len(R, n1)
+        rowsarr = fresh("crows", z3.ArraySort(I, I))
+        h2 = h2.set_elarr(R, rowsarr)
+        s.heap = h2
+        v, k1 = fresh("v"), fresh("k")
+        src = lambda t: (hsrc.at(rows, t), rows.ty.arg.region or "c")  # noqa: E731
+        new = (z3.Select(rowsarr, v), region)
+        n = hsrc.len(src(v))
+        inr = z3.And(v >= 0, v < n1)
+        s.assume(forall([v], z3.Implies(inr, z3.And(z3.Select(rowsarr, v) == base + v, h2.len(new) == n)),
+                        patterns=[z3.Select(rowsarr, v)]))
+        s.assume(forall([v, k1], z3.Implies(z3.And(inr, k1 >= 0, k1 < n), h2.at(new, k1) == hsrc.at(src(v), k1)),
+                        patterns=[h2.at(new, k1)]))
+        out.append((s, Val(LIST(LIST(ety, region), region), R.t)))
     return out
 
 
